@@ -28,7 +28,7 @@
 //	ForPhrase [Key?,Value,X,Init?,Cond?] | ComprehensionExpr a="["|"{" [Elt?,ForPhrase..]
 //	FuncLit [Type,Body] | Ellipsis [Elt?] | ArrayType [Len?,Elt] | MapType [K,V]
 //	ChanType a="chan"|"<-chan"|"chan<-" [Value] | FuncType a=""|"decl" [TypeParams?,Params,Results?]
-//	StructType [FieldList] | InterfaceType [FieldList] | FieldList a="("|"{"|"["|"" [Field..]
+//	StructType [FieldList] | InterfaceType [FieldList] | FieldList a="("|"{"|"["|"" (rendering only) [Field..]
 //	Field [List names, Type?, Tag?]
 //	ExprStmt [X] | AssignStmt a=tok [List lhs, List rhs] | IncDecStmt a="++"|"--" [X]
 //	SendStmt a=""|"..." [Chan,Values..] | GoStmt [Call] | DeferStmt [Call] | ReturnStmt [Results..]
@@ -105,7 +105,7 @@ func (t *Tree) write(b *strings.Builder) {
 	b.WriteByte(')')
 }
 
-// Equal is structural equality (List attributes are presentation only and ignored).
+// Equal is structural equality modulo the rendering-only attributes (see normAttr).
 func Equal(x, y *Tree) bool {
 	if x == nil || y == nil {
 		return x == y
@@ -113,7 +113,7 @@ func Equal(x, y *Tree) bool {
 	if x.K != y.K || len(x.C) != len(y.C) {
 		return false
 	}
-	if x.K != "List" && x.A != y.A {
+	if normAttr(x) != normAttr(y) {
 		return false
 	}
 	for i := range x.C {
@@ -122,6 +122,19 @@ func Equal(x, y *Tree) bool {
 		}
 	}
 	return true
+}
+
+// normAttr drops rendering-only parts of an attribute (the ";" of a class-file field block).
+func normAttr(t *Tree) string {
+	switch t.K {
+	case "GenDecl":
+		return strings.TrimSuffix(t.A, ";")
+	case "List", "FieldList", "FuncType", "File":
+		// how the list is bracketed, whether the signature carries its own func keyword, class/script file:
+		// decided by the context, not part of the abstract tree
+		return ""
+	}
+	return t.A
 }
 
 // Strip removes every ParenExpr.  `x => (e)` (RhsHasParen around a single result) and `(x) => e`
